@@ -444,6 +444,7 @@ ReadResult BinaryFileReader::internal_read_file(TopologyKernel &out)
         return ReadResult::InvalidFile;
     }
     if (file_header_.n_verts != out.n_vertices()
+            || file_header_.n_verts != n_verts_read_
             || file_header_.n_edges != out.n_edges()
             || file_header_.n_faces != out.n_faces()
             || file_header_.n_cells != out.n_cells())
